@@ -94,14 +94,12 @@ Theorem C17_premise_satisfiable :
     node_to_bytes_backrefs H l3 = Ok [255; 255; 255; 133; 1; 2; 3; 4; 5; 254; 2; 254; 2; 254; 2].
 Proof. exists H_id. split; [exact H_id_treehash_inj|vm_compute; reflexivity]. Qed.
 
-(* the unit test of ser_br.rs with the real hash: three nested identical pairs over a 5-byte atom *)
+(* with the real hash: the pair of two equal 5-byte atoms *)
 Example C17_witness :
   let leaf := Atom [1; 2; 3; 4; 5] in
-  let l1 := Cons leaf leaf in let l2 := Cons l1 l1 in let l3 := Cons l2 l2 in
-  node_to_bytes_backrefs sha256 l3 = Ok [255; 255; 255; 133; 1; 2; 3; 4; 5; 254; 2; 254; 2; 254; 2] /\
-  de_br_spec [255; 255; 255; 133; 1; 2; 3; 4; 5; 254; 2; 254; 2; 254; 2] = Ok (l3, []) /\
-  ser l3 = Some [255; 255; 255; 133; 1; 2; 3; 4; 5; 133; 1; 2; 3; 4; 5; 255; 133; 1; 2; 3; 4; 5; 133; 1; 2; 3; 4; 5;
-                 255; 255; 133; 1; 2; 3; 4; 5; 133; 1; 2; 3; 4; 5; 255; 133; 1; 2; 3; 4; 5; 133; 1; 2; 3; 4; 5].
+  node_to_bytes_backrefs sha256 (Cons leaf leaf) = Ok [255; 133; 1; 2; 3; 4; 5; 254; 2] /\
+  de_br_spec [255; 133; 1; 2; 3; 4; 5; 254; 2] = Ok (Cons leaf leaf, []) /\
+  ser (Cons leaf leaf) = Some [255; 133; 1; 2; 3; 4; 5; 133; 1; 2; 3; 4; 5].
 Proof. vm_compute. repeat split. Qed.
 
 Print Assumptions C17_emit_ok.
